@@ -13,6 +13,7 @@ import (
 	"sync"
 	"unsafe"
 
+	"github.com/ethereum/go-ethereum/common"
 	"github.com/jackc/pgtype"
 	"github.com/jackc/pgx/v4/pgxpool"
 
@@ -25,6 +26,8 @@ import (
 	snapshotdatabase "github.com/shutter-network/rolling-shutter/rolling-shutter/snapshot/database"
 	"github.com/shutter-network/rolling-shutter/rolling-shutter/snapshot/hubapi"
 
+	"verif/harness/eonkeys"
+	"verif/harness/hx"
 	"verif/harness/pgfake"
 )
 
@@ -78,6 +81,34 @@ func NewAccessNodeWith(_ context.Context, fx *Fixture, withSet, withKey bool) (*
 }
 
 func (a *AccessNode) Close() {}
+
+// AnnounceOther delivers the events of another keyper configuration (a successor announced ahead of its activation
+// block, or a predecessor seen by the initial sync): its keyper set (the fixture's members in reverse order, one
+// fewer when there are more than two) and, if asked for, an eon key of its own.
+func (a *AccessNode) AnnounceOther(fx *Fixture, index uint64, activation uint64, withKey bool) error {
+	members := []common.Address{}
+	for i := len(fx.Addr) - 1; i >= 0; i-- {
+		members = append(members, fx.Addr[i])
+	}
+	if len(members) > 2 {
+		members = members[:len(members)-1]
+	}
+	a.Storage.AddKeyperSet(index, &obskeyperdatabase.KeyperSet{
+		KeyperConfigIndex:     int64(index),
+		ActivationBlockNumber: int64(activation),
+		Keypers:               shdb.EncodeAddresses(members),
+		Threshold:             int32(len(members)),
+	})
+	if withKey {
+		other := eonkeys.New(hx.NewRand(index*7919+1), index, len(members), len(members))
+		key := new(shcrypto.EonPublicKey)
+		if err := key.Unmarshal(other.Public.Marshal()); err != nil {
+			return err
+		}
+		a.Storage.AddEonKey(index, key)
+	}
+	return nil
+}
 
 // ---- statements outside kdb, for the Primev and SnapshotKeyper flavours (DEVIATION 8) ----
 
